@@ -96,6 +96,7 @@ def repartition(rows, sim):
     if sim.flip(1, 8, "trail_empty"):
         frames.append(wire.Frame([], []))
         sim.count("empty_frames_inserted")
+    refenc.avoid_ambiguous_leading(frames)
     sim.fault("reframe")
     sim.event("reframe", tuple(len(f.rows) for f in frames), tuple(len(f.metadata) for f in frames))
     return frames
